@@ -2,6 +2,7 @@
 import random
 from vlib.driver import Plan, H
 from vlib.catalog import *
+from props import strprops
 
 USE = "use crate::support::rec::RecHasher;\n    use core::hash::Hash;\n    use core::borrow::Borrow;\n    use core::cmp::Ordering;"
 
@@ -189,8 +190,14 @@ def generate(tier, seed):
                      ("c13_display_plain", "Display `{}` vs inner Display (recording Formatter options + sink)"), ("c13_display_width_prec", "Display `{:>7.3}`"),
                      ("c13_display_flags", "Display `{:+#09}`"), ("c13_into_iter", "IntoIterator by value / by ref on [u8;2] and Option<u8>")]:
         plan.add(H(hn, "main", {"case": what}))
+    src.append(strprops.gen_c13(plan, tier, rng))
     plan.source = "\n".join(src)
     plan.bounds = {"numeric": "all pairs of inner values and all bound values; hash compared as the sequence of Hasher::write_* calls (equal sequences => equal hashes for every hasher)",
                    "Display": "checked on an inner type whose Display the harness defines (records Formatter width/precision/flags/fill and the value) for 3 format specs; integer/float Display run core::fmt::num / flt2dec and are outside reach"}
     plan.assumptions = ["custom fns range over symbolic families", "non-NaN float bounds"]
+    if "-Z" not in plan.kani_flags:
+        plan.kani_flags = plan.kani_flags + ["-Z", "stubbing"]
+    plan.pre_steps = plan.pre_steps + [strprops.model_validation_step]
+    plan.assumptions = plan.assumptions + strprops.ASSUMPTIONS
+    plan.bounds["strings"] = "skeleton inputs: concrete whitespace/underscore/non-ASCII characters + <= 3 symbolic printable-ASCII fillers, one harness per (declaration, skeleton); unwind 12-14"
     return plan
